@@ -195,6 +195,7 @@ type aProgram struct {
 	callNoArgs   *types.Signature
 	callOneArg   *types.Signature
 	callFOArgs   *types.Signature
+	vectorcall   *types.Signature
 	loadPyModS   *types.Signature
 	getAttrStr   *types.Signature
 	pyUniStr     *types.Signature
